@@ -48,6 +48,10 @@ pub enum PStep {
         buf: u16,
         #[serde(default)]
         form: u8,
+        /// Empty the buffer first (1: truncate(0), 2: remove(..)): it still
+        /// owns its slot and must be read into again.
+        #[serde(default)]
+        empty_first: u8,
     },
     ClonePool,
     DropPoolHandle,
@@ -279,6 +283,13 @@ impl<'c> Exec<'c> {
             self.ops[i].finished_posting = true;
             return;
         }
+        if let Some(b) = self.ops[i].into_owned {
+            self.fail("owned-read-selects-buffer", format!("a read into the ReadBuf that owns buffer {} asks the kernel to select a buffer (IOSQE_BUFFER_SELECT): the buffer it owns is not used and the selected one cannot be accounted for", self.bufs[b].bid));
+            ring.complete(serial, -libc::ECANCELED, 0, false);
+            self.ops[i].posted.push(Err(libc::ECANCELED));
+            self.ops[i].finished_posting = true;
+            return;
+        }
         match ring.select_buffer(req.sqe.buf_group) {
             None => {
                 ring.complete(serial, -libc::ENOBUFS, 0, false);
@@ -484,7 +495,7 @@ fn pstep() -> impl Strategy<Value = PStep> {
         2 => (any::<u16>(), prop_oneof![2 => Just(0u16), 1 => any::<u16>()], any::<u16>()).prop_map(|(buf, at, len)| PStep::Remove { buf, at, len }),
         3 => any::<u16>().prop_map(|buf| PStep::Release { buf }),
         3 => (any::<u16>(), proptest::bool::weighted(0.3)).prop_map(|(buf, on_thread)| PStep::DropBuf { buf, on_thread }),
-        4 => (any::<u16>(), 0u8..3).prop_map(|(buf, form)| PStep::ReRead { buf, form }),
+        4 => (any::<u16>(), 0u8..3, prop_oneof![3 => Just(0u8), 1 => Just(1u8), 1 => Just(2u8)]).prop_map(|(buf, form, empty_first)| PStep::ReRead { buf, form, empty_first }),
         1 => Just(PStep::ClonePool),
         1 => Just(PStep::DropPoolHandle),
     ]
@@ -900,14 +911,27 @@ fn step(exec: &mut Exec<'_>, s: &PStep) {
             }
             exec.give_back(b, if *on_thread { "thread" } else { "drop" });
         }
-        PStep::ReRead { buf, form } => {
+        PStep::ReRead { buf, form, empty_first } => {
             let c = exec.live_bufs();
             if c.is_empty() || exec.ops.iter().filter(|o| !o.done).count() >= 12 {
                 exec.ctx.skipped_steps += 1;
                 return;
             }
             let b = c[pick_index(*buf, c.len())];
-            let owned = exec.bufs[b].buf.take().unwrap();
+            let mut owned = exec.bufs[b].buf.take().unwrap();
+            match empty_first % 3 {
+                1 => {
+                    owned.truncate(0);
+                    exec.bufs[b].content.clear();
+                    exec.classes.push("reread-emptied");
+                }
+                2 => {
+                    owned.remove(..);
+                    exec.bufs[b].content.clear();
+                    exec.classes.push("reread-emptied");
+                }
+                _ => {}
+            }
             let afd = exec.world.fd(exec.fd);
             let fut = {
                 let _s = track::scope(track::TAG_A10);
